@@ -15,7 +15,8 @@ open Yaql.Convert
 
 /-- the kind an element container is finalised into -/
 def outKind (o : Opts) (k : SeqKind) : SeqKind :=
-  if k.isSetLike then (if o.s2l then .list else .set)
+  if k.isView then .list            -- keys() / items() of a dictionary: always a list
+  else if k.isSetLike then (if o.s2l then .list else .set)
   else if k.isSeq then (if o.t2l then .list else k)
   else .list
 
@@ -33,6 +34,10 @@ def renameP (o : Opts) : List (Py × Py) → List (Py × Py)
   | (k, v) :: r => (rename o k, rename o v) :: renameP o r
 end
 
+/-- the kinds that are finalised by building a `set` (when sets stay sets): `set` and `frozenset`; the
+    set-like dict views are finalised into lists -/
+def buildsSet (k : SeqKind) : Bool := k.isSetLike && !k.isView
+
 /-- "x converts to a hashable value" -/
 def outHashable (o : Opts) (x : Py) : Bool := hashable (rename o x)
 
@@ -41,7 +46,7 @@ mutual
     unhashable container -/
 def clean (o : Opts) : Py → Bool
   | .sc _ => true
-  | .seq k l => cleanL o (k.isSetLike && !o.s2l) l
+  | .seq k l => cleanL o (buildsSet k && !o.s2l) l
   | .map _ kvs => cleanP o kvs
 def cleanL (o : Opts) (nh : Bool) : List Py → Bool
   | [] => true
@@ -129,32 +134,52 @@ theorem convOut_spec (o : Opts) (lim : Limit) : ∀ (v r : Py),
             · intro h; cases h; rfl
             · rintro rfl; rfl
   | .seq k l, r => by
-      simp only [convOut, clean, bounded, rename, outKind]
-      cases hs : k.isSetLike
-      · cases hq : k.isSeq
-        · -- lazy kinds: counted
-          have ih := convElems_spec o lim false l lim
-          simp only [Bool.false_eq_true, if_false, Bool.false_and]
-          cases hc : convElems o lim false lim l with
-          | error e =>
-              simp only [hc] at ih
-              constructor
-              · intro h; cases h
-              · rintro ⟨h1, h2, _⟩
-                simp only [Bool.and_eq_true] at h2
-                exact absurd ((ih (renameL o l)).mpr ⟨h1, h2.2, h2.1, rfl⟩) (by simp)
-          | ok r' =>
-              obtain ⟨h1, h2, h3, rfl⟩ := (ih r').mp hc
-              simp only [h1, h2, h3, Bool.and_self, true_and]
-              constructor
-              · intro h; cases h; rfl
-              · rintro rfl; rfl
-        · have ih := convElems_spec o lim false l none
-          simp only [Bool.false_eq_true, if_false, if_true, Bool.false_and]
+      simp only [convOut, clean, bounded, rename, outKind, buildsSet]
+      cases hv : k.isView
+      · simp only [Bool.false_eq_true, if_false, Bool.not_false, Bool.and_true]
+        cases hs : k.isSetLike
+        · cases hq : k.isSeq
+          · -- lazy kinds: counted
+            have ih := convElems_spec o lim false l lim
+            simp only [Bool.false_eq_true, if_false, Bool.false_and]
+            cases hc : convElems o lim false lim l with
+            | error e =>
+                simp only [hc] at ih
+                constructor
+                · intro h; cases h
+                · rintro ⟨h1, h2, _⟩
+                  simp only [Bool.and_eq_true] at h2
+                  exact absurd ((ih (renameL o l)).mpr ⟨h1, h2.2, h2.1, rfl⟩) (by simp)
+            | ok r' =>
+                obtain ⟨h1, h2, h3, rfl⟩ := (ih r').mp hc
+                simp only [h1, h2, h3, Bool.and_self, true_and]
+                constructor
+                · intro h; cases h; rfl
+                · rintro rfl; rfl
+          · have ih := convElems_spec o lim false l none
+            simp only [Bool.false_eq_true, if_false, if_true, Bool.false_and]
+            cases hadm : lim.admits l.length
+            · simp
+            · simp only [if_true, Bool.true_and]
+              cases hc : convElems o lim false none l with
+              | error e =>
+                  simp only [hc] at ih
+                  constructor
+                  · intro h; cases h
+                  · rintro ⟨h1, h2, _⟩
+                    exact absurd ((ih (renameL o l)).mpr ⟨h1, h2, rfl, rfl⟩) (by simp)
+              | ok r' =>
+                  obtain ⟨h1, h2, _, rfl⟩ := (ih r').mp hc
+                  simp only [h1, h2, true_and]
+                  constructor
+                  · intro h; cases h; rfl
+                  · rintro rfl; rfl
+        · have ih := convElems_spec o lim (!o.s2l) l none
+          simp only [if_true, Bool.true_and]
           cases hadm : lim.admits l.length
           · simp
           · simp only [if_true, Bool.true_and]
-            cases hc : convElems o lim false none l with
+            cases hc : convElems o lim (!o.s2l) none l with
             | error e =>
                 simp only [hc] at ih
                 constructor
@@ -167,12 +192,13 @@ theorem convOut_spec (o : Opts) (lim : Limit) : ∀ (v r : Py),
                 constructor
                 · intro h; cases h; rfl
                 · rintro rfl; rfl
-      · have ih := convElems_spec o lim (!o.s2l) l none
-        simp only [if_true, Bool.true_and]
+      · -- keys() / items() views: a list, no hashing, checked by len
+        have ih := convElems_spec o lim false l none
+        simp only [if_true, Bool.not_true, Bool.and_false, Bool.false_and]
         cases hadm : lim.admits l.length
         · simp
         · simp only [if_true, Bool.true_and]
-          cases hc : convElems o lim (!o.s2l) none l with
+          cases hc : convElems o lim false none l with
           | error e =>
               simp only [hc] at ih
               constructor
@@ -319,7 +345,7 @@ theorem isPlain_rename (o : Opts) : ∀ v, isPlain o (rename o v) = true
   | .seq k l => by
       have ih := isPlainL_rename o l
       obtain ⟨t, s⟩ := o
-      cases k <;> cases t <;> cases s <;> simp_all [rename, isPlain, outKind, SeqKind.isSetLike, SeqKind.isSeq]
+      cases k <;> cases t <;> cases s <;> simp_all [rename, isPlain, outKind, SeqKind.isSetLike, SeqKind.isSeq, SeqKind.isView]
   | .map _ kvs => by simp [rename, isPlain, isPlainP_rename o kvs]
 theorem isPlainL_rename (o : Opts) : ∀ l, isPlainL o (renameL o l) = true
   | [] => rfl
@@ -386,7 +412,7 @@ theorem outHashable_eq (o : Opts) : ∀ x, outHashable o x = hashShape o x
       have ih := outHashableL_eq o l
       obtain ⟨t, s⟩ := o
       cases k <;> cases t <;> cases s <;>
-        simp_all [outHashable, rename, hashable, hashShape, outKind, SeqKind.isSetLike, SeqKind.isSeq]
+        simp_all [outHashable, rename, hashable, hashShape, outKind, SeqKind.isSetLike, SeqKind.isSeq, SeqKind.isView]
   | .map _ _ => by simp [outHashable, rename, hashable, hashShape]
 theorem outHashableL_eq (o : Opts) : ∀ l, hashableL (renameL o l) = hashShape.hashShapeL o l
   | [] => rfl
@@ -407,7 +433,8 @@ theorem fails_only_unhashable (o : Opts) : ∀ (v : Py) (e : Err), convOut o non
     (fun _ e h => by simp [convOut] at h)
     (fun k l ih e h => by
       simp only [convOut, Limit.admits, if_true] at h
-      cases hs : k.isSetLike <;> cases hq : k.isSeq <;> simp only [hs, hq, Bool.false_eq_true, if_false, if_true] at h
+      cases hv : k.isView <;> cases hs : k.isSetLike <;> cases hq : k.isSeq <;>
+        simp only [hv, hs, hq, Bool.false_eq_true, if_false, if_true] at h
       all_goals
         split at h
         · cases h
@@ -447,7 +474,7 @@ mutual
 /-- no container at all in a hash position (every set element and dict key, at any depth, is a scalar) -/
 def scalarHashPos : Py → Bool
   | .sc _ => true
-  | .seq k l => scalarHashPosL k.isSetLike l
+  | .seq k l => scalarHashPosL (buildsSet k) l
   | .map _ kvs => scalarHashPosP kvs
 def scalarHashPosL (nh : Bool) : List Py → Bool
   | [] => true
@@ -503,6 +530,9 @@ theorem total_partial (o : Opts) (v : Py) (h : scalarHashPos v = true) : ∃ r, 
   (succeeds_iff o v).mpr (clean_of_scalarHashPos o v h)
 
 example : scalarHashPos (.seq .iter [.seq .fset [.sc (.int 1)], .map .fdict [(.sc (.str ['a']), .seq .kview [.sc .null])]]) = true := by rfl
+-- a keys / items view may hold containers: it is finalised into a list
+example : scalarHashPos (.seq .iview [.seq .tuple [.sc (.str ['a']), .seq .list [.sc (.int 1)]]]) = true ∧
+    scalarHashPos (.seq .fset [.seq .tuple [.sc (.int 1)]]) = false := by exact ⟨rfl, rfl⟩
 
 /-! ## Python-constructible values and `convert_input_data` -/
 
@@ -637,7 +667,7 @@ theorem clean_convIn (o : Opts) : ∀ d, clean o (convIn d) = docX o d
   | .sc _ => rfl
   | .seq k l => by
       simp only [convIn, clean, docX]
-      have : (inKind k).isSetLike = (match k with | .set => true | _ => false) := by cases k <;> rfl
+      have : buildsSet (inKind k) = (match k with | .set => true | _ => false) := by cases k <;> rfl
       rw [this]
       exact cleanL_convIn o _ l
   | .map _ kvs => by simp only [convIn, clean, docX, cleanP_convIn o kvs]
@@ -802,22 +832,146 @@ theorem roundtrip_default (d : Py) (h : isDoc d = true) : convOut {} none (convI
 example : isDoc (.map .dict [(.sc (.str ['a']), .seq .list [.sc (.int 1), .map .dict [], .sc .null])]) = true := by rfl
 example : isDocExt (.seq .iter [.seq .tuple [.sc (.int 1)], .seq .set [.sc (.int 1), .sc (.str ['x'])]]) = true := by rfl
 
+/-! ## dict views: `keys()` / `items()` are finalised into lists -/
+
+/-- the elements of `d.keys()` -/
+def keysOf : List (Py × Py) → List Py
+  | [] => []
+  | (k, _) :: r => k :: keysOf r
+
+/-- the elements of `d.items()`: the 2-tuples `(key, value)` -/
+def itemsOf : List (Py × Py) → List Py
+  | [] => []
+  | (k, v) :: r => .seq .tuple [k, v] :: itemsOf r
+
+/-- the finalised pairs: `[key, value]` (a tuple only if tuple conversion is off) -/
+def pairsOf (o : Opts) : List (Py × Py) → List Py
+  | [] => []
+  | (k, v) :: r => .seq (if o.t2l then .list else .tuple) [k, v] :: pairsOf o r
+
+theorem keysOf_length : ∀ kvs, (keysOf kvs).length = kvs.length
+  | [] => rfl
+  | (_, _) :: r => by simp [keysOf, keysOf_length r]
+theorem itemsOf_length : ∀ kvs, (itemsOf kvs).length = kvs.length
+  | [] => rfl
+  | (_, _) :: r => by simp [itemsOf, itemsOf_length r]
+
+theorem renameL_keysOf (o : Opts) : ∀ kvs, renameL o (keysOf kvs) = keysOf (renameP o kvs)
+  | [] => rfl
+  | (k, v) :: r => by simp [keysOf, renameL, renameP, renameL_keysOf o r]
+theorem renameL_itemsOf (o : Opts) : ∀ kvs, renameL o (itemsOf kvs) = pairsOf o (renameP o kvs)
+  | [] => rfl
+  | (k, v) :: r => by
+      simp only [itemsOf, renameL, renameP, pairsOf, rename, renameL_itemsOf o r]
+      obtain ⟨t, s⟩ := o
+      cases t <;> rfl
+
+/-- every key and every value of the dictionary is finalised on its own -/
+def partsFinalise (o : Opts) (lim : Limit) (kvs : List (Py × Py)) : Prop :=
+  ∀ p ∈ kvs, (∃ r, convOut o lim p.1 = .ok r) ∧ (∃ r, convOut o lim p.2 = .ok r)
+
+theorem partsFinalise_clean (o : Opts) (lim : Limit) : ∀ kvs, partsFinalise o lim kvs →
+    cleanL o false (keysOf kvs) = true ∧ boundedL lim (keysOf kvs) = true ∧
+    cleanL o false (itemsOf kvs) = true ∧ (lim.admits 2 = true → boundedL lim (itemsOf kvs) = true)
+  | [], _ => ⟨rfl, rfl, rfl, fun _ => rfl⟩
+  | (k, v) :: r, h => by
+      have hr := partsFinalise_clean o lim r (fun p hp => h p (List.mem_cons_of_mem _ hp))
+      obtain ⟨⟨rk, hk⟩, ⟨rv, hv⟩⟩ := h (k, v) (List.mem_cons_self ..)
+      obtain ⟨ck, bk, _⟩ := (convOut_spec o lim k rk).mp hk
+      obtain ⟨cv, bv, _⟩ := (convOut_spec o lim v rv).mp hv
+      obtain ⟨r1, r2, r3, r4⟩ := hr
+      refine ⟨?_, ?_, ?_, ?_⟩
+      · simp [keysOf, cleanL, ck, r1]
+      · simp [keysOf, boundedL, bk, r2]
+      · simp [itemsOf, cleanL, clean, buildsSet, SeqKind.isSetLike, ck, cv, r3]
+      · intro h2
+        have h2' : lim.admits (0 + 1 + 1) = true := h2
+        simp [itemsOf, boundedL, bounded, bk, bv, r4 h2, h2']
+
+/-- **C10.views_finalise**: for every dictionary (builtin or frozen, of any size) whose keys and values are
+    finalised, under every option combination and every iterator limit that admits its size,
+    `keys()` is finalised successfully into the LIST of the finalised keys and - the limit admitting a
+    pair - `items()` into the LIST of the finalised `[key, value]` pairs, both in iteration order.
+    (The dictionary itself need not be finalisable: `{[1,2] => 3}.keys()` gives `[[1, 2]]`.) -/
+theorem views_finalise (o : Opts) (lim : Limit) (kvs : List (Py × Py))
+    (hlen : lim.admits kvs.length = true) (h : partsFinalise o lim kvs) :
+    convOut o lim (.seq .kview (keysOf kvs)) = .ok (.seq .list (keysOf (renameP o kvs))) ∧
+    (lim.admits 2 = true →
+      convOut o lim (.seq .iview (itemsOf kvs)) = .ok (.seq .list (pairsOf o (renameP o kvs)))) := by
+  obtain ⟨c1, b1, c2, b2⟩ := partsFinalise_clean o lim kvs h
+  constructor
+  · rw [convOut_spec]
+    refine ⟨?_, ?_, ?_⟩
+    · simpa [clean, buildsSet, SeqKind.isSetLike, SeqKind.isView] using c1
+    · simp [bounded, keysOf_length, hlen, b1]
+    · simp [rename, outKind, SeqKind.isView, renameL_keysOf]
+  · intro h2
+    rw [convOut_spec]
+    refine ⟨?_, ?_, ?_⟩
+    · simpa [clean, buildsSet, SeqKind.isSetLike, SeqKind.isView] using c2
+    · simp [bounded, itemsOf_length, hlen, b2 h2]
+    · simp [rename, outKind, SeqKind.isView, renameL_itemsOf]
+
+/-- ... in particular whenever the dictionary itself is finalised into `{k' : v', ...}`: its `keys()` is
+    finalised into `[k', ...]` and its `items()` into `[[k', v'], ...]` -/
+theorem views_finalise_of_dict (o : Opts) (mk : MapKind) (kvs r : List (Py × Py))
+    (h : convOut o none (.map mk kvs) = .ok (.map .dict r)) :
+    convOut o none (.seq .kview (keysOf kvs)) = .ok (.seq .list (keysOf r)) ∧
+    convOut o none (.seq .iview (itemsOf kvs)) = .ok (.seq .list (pairsOf o r)) := by
+  obtain ⟨hc, _, hr⟩ := (convOut_spec o none _ _).mp h
+  simp only [rename, Py.map.injEq, true_and] at hr
+  subst hr
+  have parts : ∀ l, cleanP o l = true → partsFinalise o none l := by
+    intro l
+    induction l with
+    | nil => intro _ p hp; cases hp
+    | cons x xs ih =>
+        obtain ⟨k, v⟩ := x
+        intro hcl p hp
+        simp only [cleanP, Bool.and_eq_true] at hcl
+        rcases List.mem_cons.mp hp with rfl | hp
+        · exact ⟨(succeeds_iff o k).mpr hcl.1.1.2, (succeeds_iff o v).mpr hcl.1.1.1⟩
+        · exact ih hcl.2 p hp
+  have := views_finalise o none kvs rfl (parts kvs (by simpa [clean] using hc))
+  exact ⟨this.1, this.2 rfl⟩
+
+/-- the documented examples (`dict_items` / `dict_keys` in yaql/standard_library/collections.py):
+    `{"a" => 1, "b" => 2}.items()` -> `[["a", 1], ["b", 2]]`, `.keys()` -> `["a", "b"]`, under the defaults -/
+def docDict : List (Py × Py) := [(.sc (.str ['a']), .sc (.int 1)), (.sc (.str ['b']), .sc (.int 2))]
+
+theorem views_documented :
+    convOut {} none (.seq .iview (itemsOf docDict))
+      = .ok (.seq .list [.seq .list [.sc (.str ['a']), .sc (.int 1)], .seq .list [.sc (.str ['b']), .sc (.int 2)]]) ∧
+    convOut {} none (.seq .kview (keysOf docDict)) = .ok (.seq .list [.sc (.str ['a']), .sc (.str ['b'])]) := by
+  exact ⟨rfl, rfl⟩
+
+example : partsFinalise {} none docDict := by
+  intro p hp
+  simp only [docDict, List.mem_cons, List.not_mem_nil, or_false] at hp
+  rcases hp with rfl | rfl <;> exact ⟨⟨_, rfl⟩, ⟨_, rfl⟩⟩
+-- the views of a dictionary that is not itself finalisable (K1) are: `{[1,2] => 3}.keys()` -> `[[1, 2]]`
+example : convOut {} none (.seq .kview (keysOf [(.seq .tuple [.sc (.int 1), .sc (.int 2)], .sc (.int 3))]))
+    = .ok (.seq .list [.seq .list [.sc (.int 1), .sc (.int 2)]]) := by rfl
+-- the values view is as before: a generic iterable, a list
+example : convOut {} none (.seq .vview [.sc (.int 1), .sc (.int 2)]) = .ok (.seq .list [.sc (.int 1), .sc (.int 2)]) := by rfl
+-- the size of the view is checked by `len`, and a pair is a collection of two
+example : convOut {} (some 1) (.seq .kview (keysOf docDict)) = .error .tooLarge := by rfl
+example : convOut {} (some 1) (.seq .iview (itemsOf [(.sc (.str ['a']), .sc (.int 1))])) = .error .tooLarge := by rfl
+
 /-! ## the full claim is false (known finding K1) -/
 
 /-- `set([1,2])` / a host `{(1, 2)}`: a frozenset holding a tuple -/
 def k1_set : Py := .seq .fset [.seq .tuple [.sc (.int 1), .sc (.int 2)]]
 /-- `{[1,2] => 3}`: a frozen dict keyed by a tuple -/
 def k1_key : Py := .map .fdict [(.seq .tuple [.sc (.int 1), .sc (.int 2)], .sc (.int 3))]
-/-- `{a => 1}.items()` -/
-def k1_items : Py := .seq .iview [.seq .tuple [.sc (.str ['a']), .sc (.int 1)]]
 
-/-- **C10.current_fails**: under the default options three Python-constructible results of ordinary
-    expressions are not finalised: `TypeError: unhashable type: 'list'`. -/
+/-- **C10.current_fails**: under the default options two Python-constructible results of ordinary
+    expressions are not finalised: `TypeError: unhashable type: 'list'`.  (The third former witness,
+    `{a => 1}.items()`, was a repairable defect and is repaired: `views_finalise`.) -/
 theorem current_fails :
     wf k1_set = true ∧ convOut {} none k1_set = .error .unhashable ∧
-    wf k1_key = true ∧ convOut {} none k1_key = .error .unhashable ∧
-    wf k1_items = true ∧ convOut {} none k1_items = .error .unhashable := by
-  refine ⟨rfl, rfl, rfl, rfl, rfl, rfl⟩
+    wf k1_key = true ∧ convOut {} none k1_key = .error .unhashable := by
+  refine ⟨rfl, rfl, rfl, rfl⟩
 
 theorem current_fails_full : ¬ total_full wf := by
   intro h
@@ -826,17 +980,19 @@ theorem current_fails_full : ¬ total_full wf := by
   rw [this] at hr
   cases hr
 
-/-- and it is unsatisfiable as stated: the only candidate result - the same content with the kinds the
-    options prescribe, a `set` holding a `list` - is not a Python value. -/
-theorem current_fails_unsatisfiable : wf (rename {} k1_set) = false ∧ isPlain {} (rename {} k1_set) = true := by
-  exact ⟨rfl, rfl⟩
+/-- and it is unsatisfiable as stated: the only candidate results - the same content with the kinds the
+    options prescribe, a `set` holding a `list` / a `dict` keyed by a `list` - are not Python values. -/
+theorem current_fails_unsatisfiable :
+    wf (rename {} k1_set) = false ∧ isPlain {} (rename {} k1_set) = true ∧
+    wf (rename {} k1_key) = false ∧ isPlain {} (rename {} k1_key) = true := by
+  exact ⟨rfl, rfl, rfl, rfl⟩
 
 /-- the same data is finalised when tuples are kept or sets become lists -/
 theorem k1_other_options :
     convOut { t2l := false } none k1_set = .ok (.seq .set [.seq .tuple [.sc (.int 1), .sc (.int 2)]]) ∧
     convOut { s2l := true } none k1_set = .ok (.seq .list [.seq .list [.sc (.int 1), .sc (.int 2)]]) ∧
-    (∃ r, convOut { t2l := false } none k1_items = .ok r) := by
-  exact ⟨rfl, rfl, ⟨_, rfl⟩⟩
+    convOut { t2l := false } none k1_key = .ok (.map .dict [(.seq .tuple [.sc (.int 1), .sc (.int 2)], .sc (.int 3))]) := by
+  exact ⟨rfl, rfl, rfl⟩
 
 /-- a host set holding a tuple does not round-trip under the defaults -/
 theorem k1_roundtrip :
